@@ -194,8 +194,9 @@ def gen_results_spec(rng, hostile_log=True):
         "warnings": rng.choice([None, [], ["estimate_near_boundary"], ["final_zero_gradient", "x,y"]]),
         "log": [],
     }
-    for _ in range(rng.choice([0, 0, 1, 2, 3])):
-        msg = hostile(rng, long=rng.random() < 0.2, max_long=3000) if hostile_log else "message"
+    # (now and then a log long enough that positions have two digits: entry order must survive storage)
+    for k in range(rng.choice([0, 0, 1, 2, 3, rng.randint(11, 24)])):
+        msg = hostile(rng, long=rng.random() < 0.2, max_long=3000) if hostile_log and k < 3 else f"message number {k}"
         spec["log"].append([rng.choice(["ERROR", "WARNING"]), msg])
     return spec
 
